@@ -1,3 +1,4 @@
+import Oidc.Proofs.CodeJwt
 import Oidc.Shapes
 import Oidc.Proofs.Jwt
 import Oidc.Facts
@@ -144,5 +145,34 @@ theorem text_TraefikOidc_verifyToken_ok : Oidc.Shapes.Text_TraefikOidc_verifyTok
 theorem text_fetchJWKS_ok : Oidc.Shapes.Text_fetchJWKS := by unfold Oidc.Shapes.Text_fetchJWKS; rfl
 theorem text_rsaJWKToPEM_ok : Oidc.Shapes.Text_rsaJWKToPEM := by unfold Oidc.Shapes.Text_rsaJWKToPEM; rfl
 theorem text_ecJWKToPEM_ok : Oidc.Shapes.Text_ecJWKToPEM := by unfold Oidc.Shapes.Text_ecJWKToPEM; rfl
+
+/-! ## The same statements about the code itself: the functions below are `Oidc.Generated.Code`, which `tools/go2lean` translates
+    from /repo's source, statement by statement, on every run (meaning of the Go constructs: `Oidc/GoLib.lean`) -/
+open Oidc.Generated Oidc.CodeRefine in
+/-- jwt.go `JWT.Verify` (with `verifyIssuer`, `verifyAudience`, `verifyExpiration`, `verifyIssuedAt`, `verifyNotBefore`,
+    `verifyTimeConstraint`) returns nil exactly when the claims half of the model's verifier accepts the same token -/
+theorem code_JWT_Verify (now : Int) (j : Go.JWT) (iss cid : Go.Str) :
+    (Code.JWT_Verify now j iss cid).isNone =
+      isOk (claimsStage codeFacts (String.ofList iss) (String.ofList cid) now (absTok j)) :=
+  JWT_Verify_refines now j iss cid
+
+open Oidc.Generated Oidc.CodeRefine in
+/-- the whole verdict: the key/signature half (modelled) accepts and the translated `JWT.Verify` returns nil iff the flat
+    statement of the property holds, with the allow-list and the tolerances as the source has them -/
+theorem code_verifier_iff (keys : List Key) (now : Int) (j : Go.JWT) (iss cid : Go.Str) (parsed sig : Bool) (kid : Option J) :
+    (isOk (sigStage codeFacts keys { absTok j with parsed := parsed, sigValid := sig, kid := kid }) &&
+      (Code.JWT_Verify now j iss cid).isNone) = true ↔
+    Spec codeFacts (String.ofList iss) (String.ofList cid) keys now { absTok j with parsed := parsed, sigValid := sig, kid := kid } := by
+  rw [code_JWT_Verify, ← verify_iff]
+  have h : claimsStage codeFacts (String.ofList iss) (String.ofList cid) now (absTok j) =
+      claimsStage codeFacts (String.ofList iss) (String.ofList cid) now { absTok j with parsed := parsed, sigValid := sig, kid := kid } := rfl
+  rw [h, ← accept_eq]
+
+open Oidc.Generated Oidc.CodeRefine in
+/-- the numbers the property names, read off the translated declarations: two minutes after `exp`, ten seconds before
+    `iat`/`nbf` (nanoseconds), the nine algorithm names, a wrongly typed `nbf` refused -/
+theorem code_parameters :
+    codeFacts.skewFuture = 120 * 1000000000 ∧ codeFacts.skewPast = 10 * 1000000000 ∧
+    codeFacts.supportedAlgs = Oidc.Facts.nine ∧ codeFacts.nbfTypeChecked = true := by decide
 
 end Oidc.Props.C02
